@@ -161,6 +161,7 @@ fn w_common() -> Vec<(K, u32)> {
         (K::Lusers, 1),
         (K::Ping, 1),
         (K::Opaque, 1),
+        (K::ReReg, 1),
     ]
 }
 
@@ -170,13 +171,13 @@ pub(crate) fn profile_for(id: &str) -> Profile {
         "C01" => {
             let mut p = p.clone();
             p.chan_pool = 8;
-            p.w(&[(K::Backpressure, 4), (K::Privmsg, 22), (K::Notice, 9), (K::Kick, 6), (K::Nick, 7), (K::Part, 7), (K::ModeChan, 10), (K::Eof, 2), (K::Reset, 2), (K::HalfOpen, 1)])
+            p.w(&[(K::Backpressure, 4), (K::Privmsg, 22), (K::Notice, 9), (K::Kick, 6), (K::Nick, 7), (K::Part, 7), (K::ModeChan, 10), (K::Eof, 2), (K::Reset, 2), (K::HalfOpen, 1), (K::ReReg, 3), (K::BanExcept, 2)])
         }
         "C04" => p.w(&[(K::Names, 12), (K::Who, 9), (K::Whois, 9), (K::Join, 16), (K::JoinMulti, 5), (K::Part, 9), (K::Kick, 7), (K::Nick, 7), (K::Quit, 2), (K::Eof, 2), (K::Reset, 2), (K::EofMidLine, 1)]),
-        "C07" => p.w(&[(K::Join, 26), (K::JoinMulti, 8), (K::ModeChan, 16), (K::Invite, 8), (K::Part, 8), (K::Nick, 4), (K::Names, 5), (K::Kick, 3)]),
-        "C08" => p.w(&[(K::ModeChan, 30), (K::ModeQuery, 8), (K::ModeList, 4), (K::Names, 5), (K::Who, 3), (K::Join, 12), (K::Privmsg, 6), (K::Topic, 4), (K::Kick, 4), (K::Invite, 3)]),
+        "C07" => p.w(&[(K::BanExcept, 4), (K::Join, 26), (K::JoinMulti, 8), (K::ModeChan, 16), (K::Invite, 8), (K::Part, 8), (K::Nick, 4), (K::Names, 5), (K::Kick, 3)]),
+        "C08" => p.w(&[(K::BanExcept, 6), (K::ModeChan, 30), (K::ModeQuery, 8), (K::ModeList, 4), (K::Names, 5), (K::Who, 3), (K::Join, 12), (K::Privmsg, 6), (K::Topic, 4), (K::Kick, 4), (K::Invite, 3)]),
         "C09" => p.w(&[(K::Kick, 16), (K::Topic, 12), (K::TopicQuery, 5), (K::Invite, 12), (K::List, 4), (K::ModeChan, 12), (K::Join, 14), (K::Names, 4), (K::Part, 4)]),
-        "C10" => p.w(&[(K::Privmsg, 22), (K::Notice, 14), (K::ModeChan, 16), (K::Away, 5), (K::Nick, 5), (K::Part, 4), (K::Join, 10), (K::Kick, 3)]),
+        "C10" => p.w(&[(K::BanExcept, 5), (K::Privmsg, 22), (K::Notice, 14), (K::ModeChan, 16), (K::Away, 5), (K::Nick, 5), (K::Part, 4), (K::Join, 10), (K::Kick, 3)]),
         "C11" => p.w(&[(K::Oper, 10), (K::ModeUser, 14), (K::Kill, 6), (K::Wallops, 7), (K::Stats, 4), (K::Nick, 8), (K::Whois, 5), (K::Who, 3), (K::Userhost, 3), (K::Die, 1), (K::Register, 6), (K::Lusers, 2)]),
         "C15" => p.w(&[(K::Nick, 20), (K::Names, 6), (K::ModeQuery, 5), (K::Whois, 6), (K::Whowas, 5), (K::Wallops, 4), (K::Oper, 3), (K::ModeUser, 5), (K::Away, 4), (K::Invite, 6), (K::Privmsg, 8), (K::Join, 12), (K::ModeChan, 10), (K::Register, 5), (K::Kill, 2), (K::Userhost, 2)]),
         "C16" => p.w(&[(K::Join, 20), (K::Part, 14), (K::Kick, 8), (K::Quit, 4), (K::Eof, 3), (K::Reset, 3), (K::Kill, 3), (K::Oper, 3), (K::List, 6), (K::Lusers, 4), (K::ModeQuery, 6), (K::Names, 5), (K::Topic, 5), (K::TopicQuery, 3), (K::ModeChan, 10), (K::Register, 6)]),
@@ -187,14 +188,14 @@ pub(crate) fn profile_for(id: &str) -> Profile {
             p
         }
         "C02" => {
-            let mut p = p.w(&[(K::Register, 10), (K::RegPiece, 34), (K::CompletionCollision, 4), (K::Nick, 16), (K::Gated, 14), (K::NewConn, 6), (K::Eof, 6), (K::Reset, 5), (K::Quit, 3), (K::EofMidLine, 2), (K::CapStuff, 6), (K::Privmsg, 10), (K::Whois, 5), (K::Ison, 6), (K::Names, 3), (K::Join, 8), (K::Kill, 2), (K::Oper, 2)]);
+            let mut p = p.w(&[(K::Register, 10), (K::RegPiece, 34), (K::CompletionCollision, 4), (K::Nick, 16), (K::Gated, 14), (K::NewConn, 6), (K::Eof, 6), (K::Reset, 5), (K::Quit, 3), (K::EofMidLine, 2), (K::CapStuff, 6), (K::ReReg, 4), (K::Privmsg, 10), (K::Whois, 5), (K::Ison, 6), (K::Names, 3), (K::Join, 8), (K::Kill, 2), (K::Oper, 2)]);
             p.nick_pool = 3;
             p.pre_register = 2;
             p.conns = (4, 7);
             p
         }
         "C14" => {
-            let mut p = p.w(&[(K::ModeMask, 30), (K::WhoMask, 14), (K::Join, 22), (K::Part, 8), (K::Privmsg, 8), (K::Invite, 4), (K::ModeChan, 8), (K::ModeList, 5), (K::ModeQuery, 4), (K::Nick, 8), (K::Oper, 6), (K::Register, 6), (K::Kick, 1)]);
+            let mut p = p.w(&[(K::BanExcept, 4), (K::ModeMask, 30), (K::WhoMask, 14), (K::Join, 22), (K::Part, 8), (K::Privmsg, 8), (K::Invite, 4), (K::ModeChan, 8), (K::ModeList, 5), (K::ModeQuery, 4), (K::Nick, 8), (K::Oper, 6), (K::Register, 6), (K::Kick, 1)]);
             p.nick_pool = 14;
             p.ipv6 = true;
             p
